@@ -264,8 +264,8 @@ theorem trace_accepts_sound (cfg : Cfg) (wg : List Nat) (L : Lin PSt) (batches :
     (tr : Array Ev) (h : TraceOrder.accepts (machine cfg wg) L (initSt cfg batches) tr = true) :
     ∃ sched labels ps, Admissible tr sched ∧
       EvPath cfg wg (initSt cfg batches) (sched.map (evAt tr)) labels ps ∧
-      LPath harnessCls cfg.R cfg.B cfg.K (init batches cfg.W) labels ps.lts ∧
-      Reach harnessCls cfg.R cfg.B cfg.K (init batches cfg.W) ps.lts ∧
+      LPath cfg.cls cfg.R cfg.B cfg.K (init batches cfg.W) labels ps.lts ∧
+      Reach cfg.cls cfg.R cfg.B cfg.K (init batches cfg.W) ps.lts ∧
       ps.lts.consDone = true := by
   obtain ⟨sched, ps, hadm, hrep, hfin⟩ := TraceOrder.accepts_sound h
   obtain ⟨labels, hev⟩ := replay_evpath _ _ _ hrep
@@ -280,13 +280,13 @@ theorem trace_accepts_sound (cfg : Cfg) (wg : List Nat) (L : Lin PSt) (batches :
 theorem trace_states_invariant (cfg : Cfg) (wg : List Nat) (batches : List (List (List Line)))
     (evs : List Ev) (ps : PSt) (h : replay (machine cfg wg) (initSt cfg batches) evs = some ps) (k : Nat) :
     ∃ psk, replay (machine cfg wg) (initSt cfg batches) (evs.take k) = some psk ∧
-      Reach harnessCls cfg.R cfg.B cfg.K (init batches cfg.W) psk.lts ∧
-      Inv harnessCls cfg.B cfg.K (batches.flatMap List.flatten) psk.lts := by
+      Reach cfg.cls cfg.R cfg.B cfg.K (init batches cfg.W) psk.lts ∧
+      Inv cfg.cls cfg.B cfg.K (batches.flatMap List.flatten) psk.lts := by
   rw [← List.take_append_drop k evs] at h
   obtain ⟨psk, h1, _⟩ := replay_append _ _ _ _ _ h
   obtain ⟨labels, hev⟩ := replay_evpath _ _ _ h1
-  have hr : Reach harnessCls cfg.R cfg.B cfg.K (init batches cfg.W) psk.lts := hev.lpath.reach .refl
-  exact ⟨psk, h1, hr, pipeline_invariant harnessCls cfg.R cfg.B cfg.K cfg.W batches hr⟩
+  have hr : Reach cfg.cls cfg.R cfg.B cfg.K (init batches cfg.W) psk.lts := hev.lpath.reach .refl
+  exact ⟨psk, h1, hr, pipeline_invariant cfg.cls cfg.R cfg.B cfg.K cfg.W batches hr⟩
 
 /-- An accepted log ends in a state whose consumer multiset and counters are those of the sequential
     evaluation of the configured inputs' bytes: the batches the checker derived from the logged flushes
@@ -294,11 +294,11 @@ theorem trace_states_invariant (cfg : Cfg) (wg : List Nat) (batches : List (List
 theorem trace_final (cfg : Cfg) (hW : 1 ≤ cfg.W) (wg : List Nat) (L : Lin PSt) (evs : List Ev)
     (batches : List (List (List Line))) (hb : batchesOf cfg evs = some batches)
     (tr : Array Ev) (h : TraceOrder.accepts (machine cfg wg) L (initSt cfg batches) tr = true) :
-    ∃ ps : PSt, Reach harnessCls cfg.R cfg.B cfg.K (init batches cfg.W) ps.lts ∧
-      ps.lts.consumed.Perm (seqMatches harnessCls (allLines cfg.inputs)) ∧
-      (⟨ps.lts.nRead, ps.lts.nMatched, ps.lts.nIgnored⟩ : Totals) = seqTotals harnessCls (allLines cfg.inputs) := by
+    ∃ ps : PSt, Reach cfg.cls cfg.R cfg.B cfg.K (init batches cfg.W) ps.lts ∧
+      ps.lts.consumed.Perm (seqMatches cfg.cls (allLines cfg.inputs)) ∧
+      (⟨ps.lts.nRead, ps.lts.nMatched, ps.lts.nIgnored⟩ : Totals) = seqTotals cfg.cls (allLines cfg.inputs) := by
   obtain ⟨_, _, ps, _, _, _, hr, hd⟩ := trace_accepts_sound cfg wg L batches tr h
-  have hf := pipeline_final harnessCls cfg.R cfg.B cfg.K cfg.W hW batches hr hd
+  have hf := pipeline_final cfg.cls cfg.R cfg.B cfg.K cfg.W hW batches hr hd
   simp only [batchesOf_lines hb] at hf
   exact ⟨ps, hr, hf.1, by simp [seqTotals, hf.2.1, hf.2.2.1, hf.2.2.2.1]⟩
 
